@@ -249,7 +249,9 @@ func (p *Proxy) handleRawMessage(rawMessage *RawMessage) (*Message, error) {
 	}
 	if msg.IsRequest() && rawMessage.TcpConn != nil {
 		host, port, _, err := p.getNextReponseHop(msg)
-		if strings.HasPrefix(host, "[") {
+		// strip the brackets of an IPv6 reference; anything else that merely starts with '['
+		// (the host comes from the network) is left alone
+		if len(host) >= 2 && strings.HasPrefix(host, "[") && strings.HasSuffix(host, "]") {
 			host = host[1 : len(host)-1]
 		}
 		zap.L().Info("receive a message from tcp", zap.String("host", host), zap.Int("port", port))
